@@ -144,6 +144,7 @@ fn main() {
         Some("tool") => match args.get(2).map(|s| s.as_str()) {
             Some("search-c1") => c19::search_c1_scalars(),
             Some("search-sig") => c04::search_small_components(),
+            Some("draw") => c14::print_draws(),
             _ => eprintln!("unknown tool"),
         },
         Some("selftest") => {
